@@ -579,3 +579,105 @@ Proof.
   rewrite Hff. f_equal. apply map_ext_in. intros t Ht. f_equal. apply map_ext_in. intros x Hx. f_equal.
   rewrite map_map. apply map_ext. intros o. apply cell_of_synced; assumption.
 Qed.
+
+(* ------------------------------------------------------------------ no proper frame: Series / scalar / single-column frame *)
+Section PSEUDO.
+  Variable opc : cell -> cell -> cell.
+
+  Lemma pseudo_simple o : pseudo o = true -> simple o = true.
+  Proof. destruct o as [s|c r|a|k rows|c|i]; try discriminate; try reflexivity. destruct c as [|c0 [|c1 cs]]; try discriminate. reflexivity. Qed.
+
+  Lemma opnd_none_spec m d P o : pseudo o = true ->
+    column_obj None d (reindex_obj (TgIdx P) m o) =
+      if is_ser o 0 then OS (map (fun t => (t, ocell m d o 0 t)) P) else ON (ocell m d o 0 0).
+  Proof.
+    destruct o as [s|c r|a|k rows|c|i]; try discriminate.
+    - intros _. simpl. rewrite reindex_m_val_at. reflexivity.
+    - destruct c as [|c0 [|c1 cs]]; try discriminate. intros _.
+      cbn [reindex_obj column_obj is_ser ocell]. rewrite reindex_m_row_val, column_map_fn. reflexivity.
+    - intros _. reflexivity.
+  Qed.
+
+  Lemma frame_cols_pseudo a b : pseudo a = true -> pseudo b = true -> frame_cols [a; b] = [].
+  Proof.
+    intros Ha Hb. unfold frame_cols. cbn [flat_map].
+    assert (Q : forall o, pseudo o = true -> match o with OF c _ => if multi c then [c] else [] | _ => [] end = []).
+    { intros o Ho. destruct o as [s|c r|x|k rows|c|i]; try reflexivity. destruct c as [|c0 [|c1 cs]]; try discriminate; reflexivity. }
+    rewrite (Q a Ha), (Q b Hb). reflexivity.
+  Qed.
+
+  Definition pseudo_result m d a b (P : list Z) : obj :=
+    let s := map (fun t => (t, opc (ocell m d a 0 t) (ocell m d b 0 t))) P in
+    if has1 a || has1 b then OF [0] (map (fun p => (fst p, [snd p])) s) else OS s.
+
+  (* one call; a Series result is wrapped into a one-column frame when an operand was a single-column frame
+     (the name of that column is not claimed: 0 in the model) *)
+  Theorem binop_pseudo h m ch d a b P : pseudo a = true -> pseudo b = true ->
+    join_index h (pd_indexes [a; b]) = Some P -> is_ser a 0 || is_ser b 0 = true ->
+    binop opc h m ch d a b = pseudo_result m d a b P.
+  Proof.
+    intros Pa Pb HP Hs. pose proof (pseudo_simple a Pa) as Sa. pose proof (pseudo_simple b Pb) as Sb.
+    unfold binop, presync_calls. cbn [flat_map flatten app]. rewrite (df_index_pd _ _ _ HP).
+    rewrite (frame_cols_pseudo a b Pa Pb). replace (join_index ch []) with (@None (list Z)) by reflexivity.
+    cbn [map tmap assemble]. rewrite (opnd_none_spec m d P a Pa), (opnd_none_spec m d P b Pb).
+    unfold pseudo_result.
+    destruct (is_ser a 0) eqn:Ea; destruct (is_ser b 0) eqn:Eb; try discriminate.
+    - rewrite op2_ss. reflexivity.
+    - rewrite op2_sn.
+      replace (map (fun t => (t, opc (ocell m d a 0 t) (ocell m d b 0 0))) P)
+        with (map (fun t => (t, opc (ocell m d a 0 t) (ocell m d b 0 t))) P); [reflexivity|].
+      apply map_ext. intros t. rewrite (ocell_scalar_const m d b 0 t Sb Eb). reflexivity.
+    - rewrite op2_ns.
+      replace (map (fun t => (t, opc (ocell m d a 0 0) (ocell m d b 0 t))) P)
+        with (map (fun t => (t, opc (ocell m d a 0 t) (ocell m d b 0 t))) P); [reflexivity|].
+      apply map_ext. intros t. rewrite (ocell_scalar_const m d a 0 t Sa Ea). reflexivity.
+  Qed.
+End PSEUDO.
+
+(* ------------------------------------------------------------------ min_ / max_ on DataFrames *)
+Section MINMAXF.
+  Variable opc : cell -> cell -> cell.
+
+  Lemma combine_map_map {A} (f g : A -> cell) (l : list A) :
+    map (fun xy => opc (fst xy) (snd xy)) (combine (map f l) (map g l)) = map (fun x => opc (f x) (g x)) l.
+  Proof. induction l as [|x l IH]; simpl; [reflexivity | rewrite IH; reflexivity]. Qed.
+
+  (* np.minimum / np.maximum of an accumulated frame with the next synced frame: cell by cell *)
+  Lemma mm2_synced m C P (F : Z -> Z -> cell) o :
+    mm2 opc (OF C (map (fun t => (t, map (F t) C)) P)) (synced_frame m C P o) =
+    OF C (map (fun t => (t, map (fun x => opc (F t x) (ocell m None o x t)) C)) P).
+  Proof.
+    unfold synced_frame. cbn [mm2]. unfold rows2. f_equal. rewrite map_map. apply map_ext_in. intros t Ht.
+    cbn [fst snd]. f_equal. unfold at_.
+    rewrite (lookup_map_fn (nanrow C) row_isnan (fun t => map (fun x => ocell m None o x t) C) P t Ht).
+    apply combine_map_map.
+  Qed.
+
+  Lemma fold_mm2_synced m C P rest : forall (F : Z -> Z -> cell),
+    fold_left (mm2 opc) (map (synced_frame m C P) rest) (OF C (map (fun t => (t, map (F t) C)) P)) =
+    OF C (map (fun t => (t, map (fun x => fold_left opc (map (fun o => ocell m None o x t) rest) (F t x)) C)) P).
+  Proof.
+    induction rest as [|o rest IH]; intros F; [reflexivity|].
+    cbn [map fold_left]. rewrite mm2_synced. rewrite (IH (fun t x => opc (F t x) (ocell m None o x t))). reflexivity.
+  Qed.
+
+  (* min_ / max_ of DataFrames: joint index, column set by policy, each cell the left-to-right min/max of the aligned
+     cells (a frame lacking column x or timestamp t contributes NaN) *)
+  Theorem minmax_frames h m ch c0 r0 rest P C : all_frames (OF c0 r0 :: rest) ->
+    join_index h (pd_indexes (OF c0 r0 :: rest)) = Some P -> join_index ch (frame_cols (OF c0 r0 :: rest)) = Some C ->
+    minmax opc h m ch (OF c0 r0 :: rest) =
+      Some (OF C (map (fun t => (t, map (fun x => fold_left opc (map (fun o => ocell m None o x t) rest)
+                                                             (ocell m None (OF c0 r0) x t)) C)) P)).
+  Proof.
+    intros Hall HP HC. unfold minmax.
+    assert (Hn : forall o, TL (map Leaf (OF c0 r0 :: rest)) <> Leaf o) by (intros o; discriminate).
+    rewrite (proj1 (df_sync_leafwise _ h m (Some ch) Hn)). rewrite flatten_leaves.
+    set (xs := OF c0 r0 :: rest) in *.
+    assert (Hleaf : forall o, In o xs -> sync_leaf (TL (map Leaf xs)) h m (Some ch) o = synced_frame m C P o).
+    { intros o Ho. unfold all_frames in Hall. rewrite Forall_forall in Hall. destruct (Hall o Ho) as [c [r [-> Hm]]].
+      apply sync_leaf_frame; assumption. }
+    rewrite (map_ext_in _ _ xs Hleaf). unfold xs. cbn [map]. f_equal.
+    unfold synced_frame at 2.
+    apply (fold_mm2_synced m C P rest (fun t x => ocell m None (OF c0 r0) x t)).
+  Qed.
+End MINMAXF.
